@@ -1,8 +1,10 @@
 ------------------------------- MODULE MC_SM -------------------------------
 EXTENDS SM, TLC
-\* `seen' and `usedSsc' only grow and `advMoves' only counts: they are part of the state on purpose
-\* (replays depend on seen).  History of deliveries is not kept: Authentic is evaluated on the
-\* delivery of the current exchange.
 StatusSet == {36864, 27266}     \* 9000, 6A82
 DataSet == {0, 1, 2}
+DataSet2 == {0, 1}
+\* exhaustive checking: the history variable is observation only
+View == << tSsc, cSsc, cAlive, phase, ex, wire, chipDid, seen, delivered, advMoves >>
+\* behaviour enumeration: print every complete behaviour once (hist is part of the state here)
+Emit == (phase = "idle" /\ ex > MaxEx) => PrintT(<< "B", hist >>)
 =============================================================================
